@@ -1416,6 +1416,8 @@ func (r *rec) reevent(path string) {
 		r.perftEvent(e.Fen)
 	case "uciMoves":
 		r.movesEvent(e.Fen)
+	case "zkeys":
+		r.zkeys()
 	case "transp":
 		run := func(seq []move.Move) string {
 			b, _ := board.FromFEN(e.Fen)
